@@ -23,7 +23,7 @@ func c02MaxFrames(c *Ctx) {
 				cn := c.Case("maxframe", kvs("srv", srv), kvb("alloc", alloc), kvi("framelen", flen))
 				c.NT(cn)
 				c.Stat("maxframe_cases")
-				opt := pairOpt{alloc: alloc}
+				opt := pairOpt{alloc: alloc, maxTx: 262144} // the largest payload a server can be configured for: READ replies up to the frame limit too
 				name := "/big"
 				if srv == "rs" {
 					fs := newMemFS()
@@ -60,7 +60,7 @@ func c02MaxFrames(c *Ctx) {
 					return resp
 				}
 				h := ""
-				if resp := step("OPEN", rawOpen(11, name, 0x1a, 0, nil), 11, fxpHandle, fxpStatus); resp != nil && why == "" {
+				if resp := step("OPEN", rawOpen(11, name, 0x1b, 0, nil), 11, fxpHandle, fxpStatus); resp != nil && why == "" {
 					var ok bool
 					if h, ok = resp.handle(); !ok {
 						why = "harness: the OPEN for writing was refused"
@@ -75,6 +75,19 @@ func c02MaxFrames(c *Ctx) {
 					if resp := step(fmt.Sprintf("WRITE of %d bytes", n), fr, 12, fxpStatus); resp != nil && why == "" {
 						if code, _ := resp.statusCode(); code != 0 {
 							why = fmt.Sprintf("write-refused: a well-formed WRITE whose frame is %d bytes long (limit %d) was answered with status %d", flen, maxMsg, code)
+						}
+					}
+					// ... and the largest READ replies: the file is brought to 300000 bytes, then READs whose DATA replies end within the last
+					// bytes of the largest legal frame (262144 - 13 header bytes = 262131 payload bytes) and just beyond what fits
+					step("WRITE (extend)", rawWrite(15, h, 200000, make([]byte, 100000)), 15, fxpStatus)
+					for k, ln := range []uint32{262131, 262130, 262132, 262135, 262144, 131072} {
+						id := uint32(20 + k)
+						if resp := step(fmt.Sprintf("READ of %d bytes", ln), rawRead(id, h, 0, ln), id, fxpData, fxpStatus); resp != nil && why == "" {
+							if d, isData := resp.data(); !isData {
+								why = fmt.Sprintf("read-refused: READ of %d bytes at offset 0 of a 300000 byte file answered %s", ln, pgTypeName(resp.Typ))
+							} else if len(d) == 0 || len(d) > int(ln) {
+								why = fmt.Sprintf("read-size: READ of %d bytes answered with %d bytes", ln, len(d))
+							}
 						}
 					}
 					step("FSTAT", rawHandleOp(fxpFstat, 13, h), 13, fxpAttrs, fxpStatus)
